@@ -677,6 +677,9 @@ def sb_abs(x):
     return abs(x)
 
 
+INT_KIND = ["python"]      # "numpy": symbolic integers stand for numpy integer scalars (np.int64 ...), which are not instances of int
+
+
 def sb_isinstance(obj, cls):
     cl = cls if isinstance(cls, tuple) else (cls,)
     cl = tuple({sb_float: float, sb_int: int}.get(c, c) if callable(c) and not isinstance(c, type) else c for c in cl)
@@ -685,6 +688,10 @@ def sb_isinstance(obj, cls):
         if isinstance(obj, SymBool):
             return bool in cl or int in cl
         if isinstance(obj, SymInt):
+            if INT_KIND[0] == "numpy":
+                import numbers
+                import numpy as _np
+                return any(c in (_np.integer, _np.int64, _np.signedinteger, _np.number, _np.generic, numbers.Integral, numbers.Real, numbers.Number, object) for c in cl)
             return int in cl
         if isinstance(obj, SymReal):
             return float in cl
